@@ -205,9 +205,23 @@ let run_ranges (chunks : bool) (args : (string * string) list) : string =
   let g = big_n_of_string (get args "g") in
   let status = get args "status" in
   let ranges = parse_ranges (get args "ranges") in
-  if g = N0 then
+  let requested =
+    match String.split_on_char ':' (get args "gran") with
+    | [_; x] -> (try int_of_string x with _ -> 1)
+    | _ -> 1 in
+  if g = N0 && requested = 0 then
     (* a zero granularity is not a legal input of the property *)
     add "refused" (ok true)
+  else if g = N0 then begin
+    (* the caller asked for a positive granularity but the library derived 0 from it: the
+       tasks must still partition [0, n) (no model comparison: the model needs g > 0) *)
+    if status <> "ok" then add "nopanic" ("FAIL(" ^ trunc status ^ ")")
+    else begin
+      add "nopanic" "ok";
+      let nr = List.map (fun (a, b) -> (n_of_int a, n_of_int b)) ranges in
+      add "partition" (okd (chainb N0 nr (n_of_int n)) ("derived-granularity-0:" ^ trunc (show_ranges ranges)))
+    end
+  end
   else if status <> "ok" then add "nopanic" ("FAIL(" ^ trunc status ^ ")")
   else begin
     add "nopanic" "ok";
